@@ -57,3 +57,18 @@ func StorFlushOrder(f *File) (string, int) {
 	}
 	return "other", line
 }
+
+// Tri3: a fact is `yes` when its pattern matched, `no` only when the code positively lacks the thing
+// (absent), and `unknown` for everything in between — an unrecognised shape is never reported as a defect.
+func Tri3(matched, absent bool) Tri {
+	switch {
+	case matched:
+		return Yes
+	case absent:
+		return No
+	}
+	return Unknown
+}
+
+// ShapeTri: for facts that only describe the shape the model hard-wires: matched or unknown.
+func ShapeTri(matched bool) Tri { return Tri3(matched, false) }
